@@ -38,6 +38,8 @@ static const char *wr_ctx = "";   /* set by the workload macros: the API call be
 static char  wr_fault_ctx[64];    /* API call during which the first fault fired */
 static char  wr_kinds[1 << 16];   /* kind of each call index (o r w s f c t), for the evidence */
 static void (*wr_on_first_fault)(void) = NULL;   /* optional hook, called inside the wrapped call in which the first fault fires */
+static void (*wr_on_write)(long) = NULL;         /* optional hook, called with the index of the log record of every write on a tracked stream, before
+                                                    the bytes reach the stream (an engine can read library state AS IT IS when the write is issued) */
 
 static int wr_slot(FILE *f) { for (int i = 0; i < wr_nfiles; i++) if (wr_files[i] == f) return i; return -1; }
 static int wr_hit(char kind)
@@ -96,6 +98,7 @@ size_t __wrap_fwrite(const void *p, size_t sz, size_t n, FILE *f)
         { size_t i = 0; while (wr_ctx[i] && wr_ctx[i] != '(' && i < sizeof r->ctx - 1) { r->ctx[i] = wr_ctx[i]; i++; } r->ctx[i] = 0; }
         if (wr_keep_bytes && r->len > 0) { r->bytes = malloc((size_t)r->len); memcpy(r->bytes, p, (size_t)r->len); }
         wr_nwrites++;
+        if (wr_on_write) wr_on_write(wr_nlog - 1);
     }
     return __real_fwrite(p, sz, n, f);
 }
